@@ -10,10 +10,10 @@ KINDS = ['line', 'rect', 'rect', 'tri', 'mixed', 'rect3', 'multipatch', 'periodi
 
 
 @st.composite
-def recipes(draw, kinds=KINDS, maxops=3, ops=('refine', 'refined_by', 'take', 'boundary', 'interfaces', 'trim', 'boundary-group', 'slice'), maxn=3):
+def recipes(draw, kinds=KINDS, maxops=3, minops=0, ops=('refine', 'refined_by', 'take', 'boundary', 'interfaces', 'trim', 'boundary-group', 'slice'), maxn=3):
     kind = draw(st.sampled_from(list(kinds)))
     n = [draw(st.integers(1, maxn)) for _ in range(3)]
-    k = draw(st.integers(0, maxops))
+    k = draw(st.integers(minops, maxops))
     seq = []
     for _ in range(k):
         op = draw(st.sampled_from(list(ops)))
